@@ -143,6 +143,7 @@ type (
 	// Changes to validator
 	validatorCreateChange struct {
 		address *common.Address
+		prev    *Validator // the removed (not yet flushed) validator this creation replaced, if any
 	}
 	validatorUpdateChange struct {
 		address *common.Address
@@ -165,6 +166,12 @@ type (
 func (ch validatorCreateChange) revert(s *StateDB) {
 	val, _ := s.validatorObjects.Load(*ch.address)
 	s.decrValidatorsStat(val.(*Validator))
+	if ch.prev != nil {
+		// keep the record of the earlier removal, or the validator would be
+		// reloaded from the trie as if it had never been removed
+		s.validatorObjects.Store(*ch.address, ch.prev)
+		return
+	}
 	s.validatorObjects.Delete(*ch.address)
 	s.validatorIndex.Delete(*ch.address)
 }
